@@ -48,6 +48,7 @@ type templateChecker struct {
 	registry template.Registry
 	params   []string
 	letVars  []string
+	letDefs  []int // for each of letVars, len(usedKeys) when it was defined
 	forVars  []string
 	usedKeys []string
 
@@ -61,7 +62,7 @@ func newTemplateChecker(reg template.Registry, tpl template.Template) *templateC
 	for _, param := range tpl.Doc.Params {
 		paramNames = append(paramNames, param.Name)
 	}
-	return &templateChecker{reg, paramNames, nil, nil, nil, nil}
+	return &templateChecker{reg, paramNames, nil, nil, nil, nil, nil}
 }
 
 func (tc *templateChecker) checkTemplate(node ast.Node) {
@@ -70,12 +71,12 @@ func (tc *templateChecker) checkTemplate(node ast.Node) {
 		// the variable is defined after its value has been evaluated.
 		tc.checkLet(node.Name)
 		tc.recurse(node)
-		tc.letVars = append(tc.letVars, node.Name)
+		tc.defineLet(node.Name)
 		return
 	case *ast.LetContentNode:
 		tc.checkLet(node.Name)
 		tc.recurse(node)
-		tc.letVars = append(tc.letVars, node.Name)
+		tc.defineLet(node.Name)
 		return
 	case *ast.CallNode:
 		tc.checkCall(node)
@@ -93,6 +94,11 @@ func (tc *templateChecker) checkTemplate(node ast.Node) {
 	if parent, ok := node.(ast.ParentNode); ok {
 		tc.recurse(parent)
 	}
+}
+
+func (tc *templateChecker) defineLet(varName string) {
+	tc.letVars = append(tc.letVars, varName)
+	tc.letDefs = append(tc.letDefs, len(tc.usedKeys))
 }
 
 // checkLet ensures that the let variable has an allowed name.
@@ -185,20 +191,29 @@ func (tc *templateChecker) recurse(parent ast.ParentNode) {
 
 	// "pop" the {let} variables, as well as their usages.
 	// (this is necessary to handle shadowing of @params by {let} vars)
+	// a reference belongs to a {let} variable only if it comes after its definition.
 	var letVarsGoingOutOfScope = tc.letVars[initialLetVars:]
-	var usedKeysToKeep, usedLets []string
-	for _, key := range tc.usedKeys[initialUsedKeys:] {
-		if contains(letVarsGoingOutOfScope, key) {
-			usedLets = append(usedLets, key)
-		} else {
+	var letDefsGoingOutOfScope = tc.letDefs[initialLetVars:]
+	var usedLets = make([]bool, len(letVarsGoingOutOfScope))
+	var usedKeysToKeep []string
+	for i := initialUsedKeys; i < len(tc.usedKeys); i++ {
+		var key, isLet = tc.usedKeys[i], false
+		// the innermost (latest) definition wins.
+		for j := len(letVarsGoingOutOfScope) - 1; j >= 0; j-- {
+			if letVarsGoingOutOfScope[j] == key && letDefsGoingOutOfScope[j] <= i {
+				usedLets[j], isLet = true, true
+				break
+			}
+		}
+		if !isLet {
 			usedKeysToKeep = append(usedKeysToKeep, key)
 		}
 	}
 
 	// check that any let variables leaving scope have been used
 	var unusedLetVarNames []string
-	for _, letVar := range letVarsGoingOutOfScope {
-		if !contains(usedLets, letVar) {
+	for j, letVar := range letVarsGoingOutOfScope {
+		if !usedLets[j] {
 			unusedLetVarNames = append(unusedLetVarNames, letVar)
 		}
 	}
@@ -208,6 +223,7 @@ func (tc *templateChecker) recurse(parent ast.ParentNode) {
 
 	tc.usedKeys = append(tc.usedKeys[:initialUsedKeys], usedKeysToKeep...)
 	tc.letVars = tc.letVars[:initialLetVars]
+	tc.letDefs = tc.letDefs[:initialLetVars]
 }
 
 func (tc *templateChecker) visitKey(key string) {
